@@ -266,25 +266,48 @@ def run(check):
   for o in cm.ops:
     if o.op == 'append' and cm.top_method(o.fn).name != 'enqueue':
       enq_sites.append((o.fn, o.node))
+  from ..paths import PathExec, mentions
+
+  def bounded_path(hit):
+    """some decision on the path says `queue size < limit` (for one of the configured limits)"""
+    def is_size(t):
+      return isinstance(t, tuple) and ((t[0] == 'attr' and t[-1] == 'queueSize') or
+                                       (t[0] == 'call' and t[1] == 'len' and len(t) == 3 and isinstance(t[2], tuple) and
+                                        t[2][0] == 'attr' and t[2][-1] == 'queue'))
+
+    def is_limit(t):
+      return mentions(t, lambda x: isinstance(x, tuple) and ((x[0] == 'param' and x[1] in LIMITS) or
+                                                            (x[0] == 'attr' and x[-1] in LIMITS)))
+    for pol, t, a, n in hit.conds:
+      if pol not in ('T', 'F') or not (isinstance(t, tuple) and t[0] == 'cmp'):
+        continue
+      op, l, r = t[1], t[2], t[3]
+      if is_size(l) and is_limit(r) and ((op == 'Lt' and pol == 'T') or (op == 'GtE' and pol == 'F')):
+        return True
+      if is_size(r) and is_limit(l) and ((op == 'Gt' and pol == 'T') or (op == 'LtE' and pol == 'F')):
+        return True
+    return False
   for f, c in enq_sites:
     g = cx.cfg(f)
     dn = g.node_containing(c)
     if not dn:
       continue
     dn = dn[0]
-    unb = g.reach([g.entry], normal_only=True, removed_edge=lambda a, lab, b: bound_edge(lab) is not None)
-    if dn not in unb:
-      r_b.ok('%s: enqueue dominated by a size test against the limit' % f.qualname, f.loc(c))
+    px = PathExec(cx, f, unroll=0, follow_exceptions=False)
+    unbounded = [hit for hit in px.run([dn]) if not bounded_path(hit)]
+    if px.truncated:
+      r_b.cannot_decide('%s: too many paths to the enqueue' % f.qualname)
+    elif not unbounded:
+      r_b.ok('%s: every path to the enqueue passed a size test against the limit' % f.qualname, f.loc(c))
     else:
       callers = _callers_of(cx, cm.top_method(f), typed_only=True)
       if f.cls is not None and repo.is_subclass(f.cls, pro) and not callers:
         r_b.ok('%s: unguarded enqueue, but no caller resolves to it (dead entry point)' % f.qualname, f.loc(c),
                'becomes a violation as soon as a call site appears')
       else:
-        p = g.path([g.entry], dn, normal_only=True, removed_edge=lambda a, lab, b: bound_edge(lab) is not None)
         r_b.violate('unbounded enqueue', f, c, 'a datapoint can be appended to the send queue without the queue size having '
                     'been tested against SEND_QUEUE_HARD_MAX / MAX_QUEUE_SIZE: the queue can grow beyond its hard limit',
-                    path=g.describe_path(p))
+                    path=unbounded[0].describe())
   sd = fac.methods.get('sendDatapoint')
   if sd is None:
     r_d.cannot_decide('CarbonClientFactory.sendDatapoint not found')
@@ -361,12 +384,27 @@ def run(check):
     for c in [n for n in walk_no_nested(f.node, include_self=False) if isinstance(n, ast.Call)]:
       if cm.calls_factory_method(c, f, 'stopConnecting'):
         ok = False
-        if isinstance(f.node, ast.Lambda) and f.parent_fn is not None:
-          # registered on queueEmpty?
-          for k in [n for n in walk_no_nested(f.parent_fn.node, include_self=False) if isinstance(n, ast.Call)]:
+        # is f (a lambda, a nested function or a method) used only as the callback registered on queueEmpty?
+        holders = [f.parent_fn] if f.parent_fn is not None else [m_ for m_ in (f.cls.methods.values() if f.cls is not None else [])]
+        for h in holders:
+          for k in [n for n in walk_no_nested(h.node, include_self=False) if isinstance(n, ast.Call)]:
             if isinstance(k.func, ast.Attribute) and k.func.attr in ('addCallback', 'addCallbacks') and \
-               (dotted(k.func.value) or '').endswith('queueEmpty') and k.args and k.args[0] is f.node:
-              ok = True
+               (dotted(k.func.value) or '').endswith('queueEmpty') and k.args:
+              a0 = k.args[0]
+              if a0 is f.node:
+                ok = True
+              elif isinstance(a0, ast.Name) and f.parent_fn is h and a0.id == f.name and not isinstance(f.node, ast.Lambda):
+                ok = True
+              elif isinstance(a0, ast.Attribute) and isinstance(a0.value, ast.Name) and a0.value.id == 'self' and \
+                  f.parent_fn is None and a0.attr == f.name:
+                ok = True
+        if ok and not isinstance(f.node, ast.Lambda):
+          # a named callback must not be called directly anywhere
+          direct = [1 for h in repo.all_functions() for k in walk_no_nested(h.node, include_self=False)
+                    if isinstance(k, ast.Call) and ((isinstance(k.func, ast.Name) and k.func.id == f.name and f.parent_fn is not None and
+                                                     (h is f.parent_fn or h.parent_fn is f.parent_fn)) or
+                                                    (isinstance(k.func, ast.Attribute) and k.func.attr == f.name and f.parent_fn is None))]
+          ok = not direct
         if ok:
           r_e.ok('stopConnecting only as the queueEmpty callback', f.loc(c))
         else:
